@@ -274,7 +274,8 @@ def _key_id(k):
 
 def key_order_conflict(vals):
   """Do two dicts occurring anywhere in the values have the same key set in different orders?
-  (The precondition of finding F15: `lt` walks keys by position, `eq` treats them as a set.)"""
+  (The precondition of the repaired finding F15: `lt` walked keys by position, `eq` treats them as
+  a set; kept so that a regression is reported under the old signature.)"""
   seqs = {}
   for d in vals:
     for x in walk(d):
@@ -592,7 +593,7 @@ class C06(Prop):
   props_modules = ['PgProps.C06']
   driver = 'drv_c06'
   translators = [t_c06.run]
-  case_timeout_s = 20
+  case_timeout_s = 60
   jobs_thorough = 14
   rule = ('pairs and triples generated in related families: a random base value (atoms incl. bool/int/'
           'float aliases, None, the missing marker, str; plain and symbolic lists / dicts with str, int, '
@@ -607,7 +608,8 @@ class C06(Prop):
       "Python's `==`, `<` and `hash` on bool/int/float/str/None/classes, `hash` of tuple/frozenset/int "
       '(parameters of the model: NumOrd lemmas for exact dyadic rationals, PyHash with the law '
       '"numerically equal atoms hash equal" and permutation-invariance of the frozenset hash)',
-      'modelled, not verified: eq / ne / lt / gt / hashTerm mirror base.py, dict.py, list.py, object.py '
+      'modelled, not verified: eq / ne / symLt (= positional lt after key sorting) / symGt / hashTerm mirror '
+      'base.py, dict.py, list.py, object.py '
       '(tied by T-ORDER extraction + correspondence); user classes overriding sym_eq / sym_lt / sym_hash, '
       'NaN / inf, sets, functions / methods / classes as values (callable_eq), typed missing values of '
       'partial objects and inferred values are outside the model',
@@ -865,6 +867,8 @@ class C06(Prop):
     return any(not is_atom(v) for v in vals) and any(v != vals[0] for v in vals[1:])
 
   def describe(self, case, out):
+    if not isinstance(out, dict) or 'model' not in out:
+      return ['no-output(timeout)']
     vals = case['vals']
     n = len(vals)
     m = out['model']
